@@ -317,7 +317,7 @@ pub fn check(s: &Scenario) -> CheckResult {
         Scenario::CallerCompiles { no_std, features } => caller_compiles(*no_std, *features),
         Scenario::LockHeld { variant } => {
             lock_held(*variant)?;
-            Ok(CaseInfo::new(true, hash_of(&("lock-held", variant % 2))).class("borrow holds its lock"))
+            Ok(CaseInfo::new(true, hash_of(&("lock-held", variant % 4))).class("borrow holds its lock"))
         }
         Scenario::RrtkBuildCompiles { rrtk_build } => {
             let b = if *rrtk_build % 3 == 1 { 1 } else { 2 };
@@ -331,7 +331,80 @@ pub fn check(s: &Scenario) -> CheckResult {
     }
 }
 
+trait LockedVal {
+    fn val(&self) -> i64;
+    fn put(&mut self, v: i64);
+}
+impl LockedVal for i64 {
+    fn val(&self) -> i64 {
+        *self
+    }
+    fn put(&mut self, v: i64) {
+        *self = v;
+    }
+}
+/// The pointer-to-lock variants, also after `to_dyn!` (which supports PtrRwLock): the lock the caller handed over is held for as
+/// long as a borrow is alive and free afterwards.
+fn ptr_lock_held(variant: u8) -> Result<(), Violation> {
+    if variant % 4 == 2 {
+        let lock: &'static RwLock<i64> = Box::leak(Box::new(RwLock::new(5i64)));
+        let plain = unsafe { Reference::from_ptr_rw_lock(lock as *const RwLock<i64>) };
+        for (how, r) in [("from_ptr_rw_lock", plain.clone()), ("a clone", plain.clone().clone())] {
+            {
+                let b = r.borrow();
+                ensure!(*b == 5, "C17/lock-held/PtrRwLock", "borrow() through {} reads {}", how, *b);
+                ensure!(lock.try_write().is_err(), "C17/lock-held/PtrRwLock", "while a Borrow taken through {} is alive a writer can get the lock", how);
+            }
+            ensure!(lock.try_write().is_ok(), "C17/lock-held/PtrRwLock", "after the Borrow taken through {} was dropped a writer still cannot get the lock", how);
+            {
+                let mut b = r.borrow_mut();
+                *b = 5;
+                ensure!(lock.try_read().is_err() && lock.try_write().is_err(), "C17/lock-held/PtrRwLock", "while a BorrowMut taken through {} is alive the lock can be taken by someone else", how);
+            }
+            ensure!(lock.try_write().is_ok(), "C17/lock-held/PtrRwLock", "after the BorrowMut taken through {} was dropped the lock is still held", how);
+        }
+        let converted: Reference<dyn LockedVal> = to_dyn!(LockedVal, plain.clone());
+        for (how, r) in [("to_dyn!", converted.clone()), ("a clone of the to_dyn! result", converted.clone().clone())] {
+            {
+                let b = r.borrow();
+                ensure!(b.val() == 5, "C17/lock-held/PtrRwLock-to_dyn", "borrow() through {} reads {}", how, b.val());
+                ensure!(lock.try_write().is_err(), "C17/lock-held/PtrRwLock-to_dyn", "while a Borrow taken through {} is alive a writer can get the original lock: the converted Reference no longer goes through it", how);
+            }
+            ensure!(lock.try_write().is_ok(), "C17/lock-held/PtrRwLock-to_dyn", "after the Borrow taken through {} was dropped a writer still cannot get the lock", how);
+            {
+                let mut b = r.borrow_mut();
+                b.put(5);
+                ensure!(lock.try_read().is_err() && lock.try_write().is_err(), "C17/lock-held/PtrRwLock-to_dyn", "while a BorrowMut taken through {} is alive the original lock can be taken by someone else: the converted Reference no longer goes through it", how);
+            }
+            ensure!(lock.try_write().is_ok(), "C17/lock-held/PtrRwLock-to_dyn", "after the BorrowMut taken through {} was dropped the lock is still held", how);
+        }
+        // a write through the converted reference while the plain one is idle lands in the same cell
+        converted.borrow_mut().put(6);
+        ensure!(*plain.borrow() == 6 && *lock.read().unwrap() == 6, "C17/lock-held/PtrRwLock-to_dyn", "a write through the to_dyn! result is not seen through the original lock");
+    } else {
+        let lock: &'static Mutex<i64> = Box::leak(Box::new(Mutex::new(5i64)));
+        let plain = unsafe { Reference::from_ptr_mutex(lock as *const Mutex<i64>) };
+        for (how, r) in [("from_ptr_mutex", plain.clone()), ("a clone", plain.clone().clone())] {
+            {
+                let b = r.borrow();
+                ensure!(*b == 5, "C17/lock-held/PtrMutex", "borrow() through {} reads {}", how, *b);
+                ensure!(lock.try_lock().is_err(), "C17/lock-held/PtrMutex", "while a Borrow taken through {} is alive the mutex is not locked", how);
+            }
+            ensure!(lock.try_lock().is_ok(), "C17/lock-held/PtrMutex", "after the Borrow taken through {} was dropped the mutex is still locked", how);
+            {
+                let mut b = r.borrow_mut();
+                *b = 5;
+                ensure!(lock.try_lock().is_err(), "C17/lock-held/PtrMutex", "while a BorrowMut taken through {} is alive the mutex is not locked", how);
+            }
+            ensure!(lock.try_lock().is_ok(), "C17/lock-held/PtrMutex", "after the BorrowMut taken through {} was dropped the mutex is still locked", how);
+        }
+    }
+    Ok(())
+}
 pub fn lock_held(variant: u8) -> Result<(), Violation> {
+    if variant % 4 >= 2 {
+        return ptr_lock_held(variant);
+    }
     if variant % 2 == 0 {
         let arc = Arc::new(Mutex::new(5i64));
         for (how, r) in [("from_arc_mutex", Reference::from_arc_mutex(arc.clone())), ("a clone", Reference::from_arc_mutex(arc.clone()).clone())] {
@@ -494,7 +567,7 @@ impl Property for C17 {
         for rrtk_build in [1u8, 2] {
             sink(Scenario::RrtkBuildCompiles { rrtk_build });
         }
-        for variant in [0u8, 1] {
+        for variant in [0u8, 1, 2, 3] {
             sink(Scenario::LockHeld { variant });
         }
         // every variant x every pair of ops (length-2 prefixes) followed by a fixed tail, in all three crates
